@@ -43,6 +43,10 @@ func (d *Directory) Mangle(callback MangleFunc) (*Mangler, error) {
 		indir:  d.DirLoc,
 		insize: d.Size,
 	}
+	// bytes that are not part of any file (a prefix, gaps) are left in place by
+	// the patch, so a kept file moves only by the size of the files removed
+	// before it
+	var removed int64
 	for _, f := range d.File {
 		mf := &MangleFile{File: *f, m: m}
 		if err := callback(mf); err != nil {
@@ -54,12 +58,15 @@ func (d *Directory) Mangle(callback MangleFunc) (*Mangler, error) {
 				return nil, err
 			}
 			m.patch.Add(int64(mf.Offset), size, nil)
+			removed += size
 		} else {
+			m.outz.DirLoc = int64(mf.Offset) - removed
 			if _, err := m.outz.AddFile(&mf.File); err != nil {
 				return nil, err
 			}
 		}
 	}
+	m.outz.DirLoc = m.indir - removed
 	return m, nil
 }
 
